@@ -634,7 +634,48 @@ def build_nested_close(p):
     return ws
 
 
-BUILDERS = {"nested_close": build_nested_close, "shadow": build_shadow, "usegraph": build_usegraph, "types": build_types, "include": build_include,
+# ============================================================ rename without ONLY
+# `use m, local => remote` (a rename list without ONLY): everything public of m is accessible, remote under the name local.
+def rename_all_cases():
+    for where in ("program", "module_procedure"):
+        for second in (False, True):
+            yield (where, second)
+
+
+def build_rename_all(p):
+    where, second = p
+    ws = Workspace()
+    f = ws.file("rm.f90")
+    f.add("module rm")
+    f.add("  implicit none")
+    f.add("  integer :: ", D("remote_a", "RM::a"))
+    f.add("  integer :: ", D("remote_b", "RM::b"))
+    f.add("  integer :: ", D("plain_c", "RM::c"))
+    f.add("end module rm")
+    g = ws.file("ru.f90")
+    ren = "local_a => remote_a" + (", local_b => remote_b" if second else "")
+    body = ["    k = ", U("local_a", "RM::a"), " + ", U("plain_c", "RM::c")] + ([" + ", U("local_b", "RM::b")] if second else [" + ", U("remote_b", "RM::b")])
+    if where == "program":
+        g.add("program ru")
+        g.add("  use rm, " + ren)
+        g.add("  implicit none")
+        g.add("  integer :: k")
+        g.add(*["  " + body[0][2:]] + body[1:])
+        g.add("end program ru")
+    else:
+        g.add("module ruser")
+        g.add("  implicit none")
+        g.add("contains")
+        g.add("  subroutine rs()")
+        g.add("    use rm, " + ren)
+        g.add("    integer :: k")
+        g.add(*body)
+        g.add("  end subroutine rs")
+        g.add("end module ruser")
+    return ws
+
+
+BUILDERS = {"rename_without_only": build_rename_all, "nested_close": build_nested_close, "shadow": build_shadow, "usegraph": build_usegraph, "types": build_types, "include": build_include,
             "types_files": build_types_files, "constructs": build_constructs}
 
 
@@ -808,6 +849,8 @@ def _features(fam, p):
 def jobs(quick):
     for p in shadow_cases():
         yield ("shadow", p)
+    for p in rename_all_cases():
+        yield ("rename_without_only", p)
     for p in types_cases():
         yield ("types", p)
     for p in include_cases():
